@@ -165,6 +165,11 @@ def run_case(c, idx, tmp):
         elif c["arm"] == "hook":
             fickling.always_check_safety()
             res = pickle.load(src)
+        elif c["arm"] == "hook_after_context":     # the global hook stays armed after a context was used on top of it
+            fickling.always_check_safety()
+            with fickling.check_safety():
+                pass
+            res = pickle.load(src)
         elif c["arm"] == "context":
             with fickling.check_safety():
                 res = pickle.load(src)
